@@ -421,7 +421,16 @@ func genNoHaltHist(r *Rng, i int, tier string) []string {
 		reporters = append(reporters, "v1")
 	}
 	dispN := 0
+	// downtime variant (four validators, 1 in 3): somewhere in the history the reporter-validator v1 misses the signing window, is
+	// slashed and jailed by the slashing module and asks to be unjailed ten minutes later (exchange rate 0.99 afterwards)
+	jailAt := -1
+	if nv >= 4 && r.Chance(1, 3) {
+		jailAt = r.Intn(nops)
+	}
 	for k := 0; k < nops; k++ {
+		if k == jailAt {
+			downtime(add, "v1")
+		}
 		acct := fmt.Sprintf("a%d", r.Intn(na))
 		rp := reporters[r.Intn(len(reporters))]
 		switch r.Intn(24) {
